@@ -83,6 +83,16 @@ def explore(chk):
         nontriv = any((META & set(l)) for c in caps for l in c[3]) or any(
             c[2][k][0] == "B" and (k == 0 or k == len(c[2]) - 1 or c[2][k - 1][0] == "B") for c in caps for k in range(len(c[2])))
         w = core.POOL.get(W)
+        chk._c03_n = getattr(chk, "_c03_n", 0) + 1
+        if chk._c03_n % 4 == 0:
+            # the caption set has been written before, by other writers: every writer must still see the original text
+            import pycaption as _pc
+            for Wprev in (_pc.WebVTTWriter, _pc.SRTWriter, _pc.DFXPWriter, _pc.SAMIWriter):
+                try:
+                    Wprev().write(cs)
+                except Exception:
+                    pass
+            case["written_before_by"] = ["webvtt", "srt", "dfxp", "sami"]
         try:
             doc = w.write(cs)
         except Exception as e:
